@@ -297,7 +297,7 @@ pub fn gen20(tier: &str, r: &mut Rng, emit: &mut dyn FnMut(Vec<u64>)) {
     for _ in 0..nmsg {
         let ops = rand_ops(r, 10);
         let p = build(&ops);
-        let bs = match p.to_bytes_unlimited() { Ok(b) => b, Err(_) => continue };
+        let bs = match probe(&p) { Ok(b) => b, Err(_) => continue };
         if bs.len() > 400 { continue; }
         emit_bytes(&pol, &bs, emit);
         for k in 0..bs.len() { emit_bytes(&pol, &bs[..k], emit); }
@@ -337,6 +337,14 @@ fn desc_of(p: &Packet) -> PktDesc {
     }
 }
 
+/// to_bytes_unlimited as a generator's probe: journalled as the suite-40 case it is
+fn probe(p: &Packet) -> Result<Vec<u8>, coap_lite::error::MessageError> {
+    let mut v = vec![Packet::MAX_SIZE as u64, 2];
+    desc_of(p).write(&mut v);
+    crate::common::journal(40, &v);
+    p.to_bytes_unlimited()
+}
+
 pub fn gen40(tier: &str, r: &mut Rng, emit: &mut dyn FnMut(Vec<u64>)) {
     let thorough = tier == "thorough";
     let mx = Packet::MAX_SIZE as u64;
@@ -355,7 +363,7 @@ pub fn gen40(tier: &str, r: &mut Rng, emit: &mut dyn FnMut(Vec<u64>)) {
         base.retain(|o| !matches!(o, Op::Payload(_)));
         let mut p = build(&base);
         if r.chance(1, 8) { p.header.code = class_dec(0); }
-        let l0 = match p.to_bytes_unlimited() { Ok(b) => b.len() as i64, Err(_) => continue };
+        let l0 = match probe(&p) { Ok(b) => b.len() as i64, Err(_) => continue };
         for delta in [-2i64, -1, 0, 1, 2] {
             let target = lim as i64 + delta;
             let mut q = p.clone();
@@ -371,7 +379,7 @@ pub fn gen40(tier: &str, r: &mut Rng, emit: &mut dyn FnMut(Vec<u64>)) {
                 for x in (0..=room.min(70000)).rev() {
                     let mut t = p.clone();
                     t.add_option(CoapOption::from(65500), vec![0xAB; x as usize]);
-                    if let Ok(b) = t.to_bytes_unlimited() { if b.len() as i64 == target { q = t; done = true; break; } if (b.len() as i64) < target - 8 { break; } }
+                    if let Ok(b) = probe(&t) { if b.len() as i64 == target { q = t; done = true; break; } if (b.len() as i64) < target - 8 { break; } }
                 }
                 if !done { continue; }
             } else {
@@ -379,12 +387,12 @@ pub fn gen40(tier: &str, r: &mut Rng, emit: &mut dyn FnMut(Vec<u64>)) {
                 let room = target - l0;
                 if room < 12 { continue; }
                 q.payload = r.bytes((room / 3) as usize);
-                let l1 = q.to_bytes_unlimited().unwrap().len() as i64;
+                let l1 = probe(&q).unwrap().len() as i64;
                 let mut done = false;
                 for x in (0..=(target - l1).max(0)).rev() {
                     let mut t = q.clone();
                     t.add_option(CoapOption::from(65501), vec![0xCD; x as usize]);
-                    if let Ok(b) = t.to_bytes_unlimited() { if b.len() as i64 == target { q = t; done = true; break; } if (b.len() as i64) < target - 8 { break; } }
+                    if let Ok(b) = probe(&t) { if b.len() as i64 == target { q = t; done = true; break; } if (b.len() as i64) < target - 8 { break; } }
                 }
                 if !done { continue; }
             }
@@ -398,7 +406,7 @@ pub fn gen40(tier: &str, r: &mut Rng, emit: &mut dyn FnMut(Vec<u64>)) {
         let mut p = Packet::new();
         p.set_token(r.bytes(tkl));
         p.add_option(CoapOption::UriPath, b"x".to_vec());
-        let l0 = p.to_bytes_unlimited().unwrap().len() as i64;
+        let l0 = probe(&p).unwrap().len() as i64;
         p.payload = r.bytes((mx as i64 + d - l0 - 1) as usize);
         one(&p, 0, 0, emit);
         one(&p, 2, 0, emit);
@@ -422,7 +430,7 @@ pub fn gen40(tier: &str, r: &mut Rng, emit: &mut dyn FnMut(Vec<u64>)) {
     for _ in 0..(if thorough { 100_000 } else { 5_000 }) {
         let ops = rand_ops(r, 8);
         let p = build(&ops);
-        let l = p.to_bytes_unlimited().map(|b| b.len() as u64).unwrap_or(20);
+        let l = probe(&p).map(|b| b.len() as u64).unwrap_or(20);
         let lim = match r.below(4) { 0 => l, 1 => l.saturating_sub(1), 2 => l + 1, _ => r.below(2 * l + 2) };
         one(&p, 1, lim, emit);
     }
